@@ -8,7 +8,7 @@ from hypothesis import strategies as st
 from ..core import sampled_from  # noqa: E402
 
 from .. import build, meshgen, writers
-from ..core import Failure
+from ..core import Failure, need
 
 ID = "C08"
 RULE = (
@@ -138,7 +138,11 @@ def _case(draw, tier):
                     base["proj"] = None if base["proj"] else ["robinson", 0.0]
                 base["cache"], base["override"] = True, False
             elif base["op"] == "tree":
-                base["cfg"] = draw(sampled_from(TREE_CFG))
+                # the same tree asked for another element kind, or another configuration for the same kind
+                if draw(st.booleans()):
+                    base["kind"] = draw(sampled_from([k_ for k_ in ("nodes", "face centers", "edge centers") if k_ != base["kind"]]))
+                else:
+                    base["cfg"] = draw(sampled_from(TREE_CFG))
                 base["reconstruct"] = False
             elif base["op"] in ("areas", "total_area"):
                 base["rule"] = draw(sampled_from(RULES))
@@ -344,7 +348,7 @@ def _apply(g, o):
     if op in ("gdf", "poly", "line"):
         kw = dict(periodic_elements=o["periodic"], projection=_projection(o["proj"]), cache=o["cache"], override=o["override"])
         if op == "gdf":
-            gdf = g.to_geodataframe(engine=o["engine"], **kw)
+            gdf = need(g.to_geodataframe(engine=o["engine"], **kw), "columns", "Grid.to_geodataframe")
             rows = []
             for gm in gdf["geometry"]:
                 gm = gm.to_shapely() if hasattr(gm, "to_shapely") else gm
@@ -352,14 +356,14 @@ def _apply(g, o):
                 rows.append([np.asarray(p.exterior.coords) for p in parts])
             return _norm([type(gdf).__module__.split(".")[0], list(gdf.columns), rows])
         if op == "poly":
-            pc = g.to_polycollection(**kw)
+            pc = need(g.to_polycollection(**kw), "get_paths", "Grid.to_polycollection")
             return _norm([np.asarray(p.vertices) for p in pc.get_paths()])
-        lc = g.to_linecollection(**kw)
+        lc = need(g.to_linecollection(**kw), "get_segments", "Grid.to_linecollection")
         return _norm([np.asarray(s) for s in lc.get_segments()])
     if op == "tree":
         t, system, metric = o["cfg"]
         getter = g.get_ball_tree if t == "ball" else g.get_kd_tree
-        tree = getter(coordinates=o["kind"], coordinate_system=system, distance_metric=metric, reconstruct=o["reconstruct"])
+        tree = need(getter(coordinates=o["kind"], coordinate_system=system, distance_metric=metric, reconstruct=o["reconstruct"]), "query", f"Grid.get_{t}_tree")
         n = {"nodes": g.n_node, "face centers": g.n_face, "edge centers": g.n_edge}[o["kind"]]
         k = min(3, n)
         if system == "cartesian":
@@ -419,10 +423,10 @@ def _apply(g, o):
             oda = ux.UxDataArray(np.arange(other.n_face, dtype=float), dims=["n_face"], uxgrid=other, name="o")
             return _norm(np.asarray(oda.remap.inverse_distance_weighted(g, remap_to="face centers", coord_type=o["ct"], k=3).values))
         if w == "da_gdf":
-            gdf = fda.to_geodataframe()
+            gdf = need(fda.to_geodataframe(), "columns", "UxDataArray.to_geodataframe")
             return _norm([list(gdf.columns), np.asarray(gdf["f"], float)])
         if w == "da_poly":
-            pc = fda.to_polycollection()
+            pc = need(fda.to_polycollection(), "get_paths", "UxDataArray.to_polycollection")
             return _norm([np.asarray(p.vertices) for p in pc.get_paths()] + [np.asarray(pc.get_array(), float)])
         if w == "isel_node":
             r = nda.isel(n_node=[0, g.n_node - 1])
